@@ -78,25 +78,25 @@ pub fn digest(n: &mut Node) -> Vec<String> {
     let mut out: Vec<String> = Vec::new();
     {
         let m = n.dbs.map.read().unwrap();
-        let mut names: Vec<String> = m.keys().map(|k| k.clone()).collect(); names.sort();
+        let names: Vec<String> = m.keys().map(|k| k.clone()).collect();   // map order (deterministic in the model); no sort: comparing symbolic strings lexicographically is what string solvers do worst
         for name in names.iter() {
             let db = m.get(name).unwrap();
             out.push(["db ", name, " strategy ", &db.metadata.consensus_strategy.to_string(), " id ", &db.metadata.id.to_string(), " conns ", &db.connections_count().to_string()].concat());
             let dm = db.map.read().unwrap();
-            let mut keys: Vec<String> = dm.keys().map(|k| k.clone()).collect(); keys.sort();
+            let keys: Vec<String> = dm.keys().map(|k| k.clone()).collect();
             for k in keys.iter() {
                 let v = dm.get(k).unwrap();
                 out.push(["  ", k, " = ", &v.value, " @", &v.version.to_string(), " s", &(v.state as usize).to_string()].concat());
             }
             let wm = db.watchers.map.read().unwrap();
-            let mut wk: Vec<String> = wm.keys().map(|k| k.clone()).collect(); wk.sort();
+            let wk: Vec<String> = wm.keys().map(|k| k.clone()).collect();
             for k in wk.iter() { out.push(["  watch ", k, " x", &wm.get(k).unwrap().len().to_string()].concat()); }
         }
     }
     {
         let cs = n.dbs.cluster_state.lock().unwrap();
         let members = cs.members.lock().unwrap();
-        let mut names: Vec<String> = members.keys().map(|k| k.clone()).collect(); names.sort();
+        let names: Vec<String> = members.keys().map(|k| k.clone()).collect();
         for k in names.iter() { out.push(["member ", k, " role ", &(members.get(k).unwrap().role as usize).to_string()].concat()); }
     }
     out.push(["role ", &(n.dbs.get_role() as usize).to_string()].concat());
